@@ -89,10 +89,14 @@ def differential(ctx, lines, label=""):
 def shrink_segment(ctx, seg):
     """greedy line removal for stateful histories; single ops are returned as is."""
     if len(seg) <= 2: return seg
+    bad0, _, _ = differential(ctx, seg)
+    if not bad0: return seg
+    op0 = bad0[0][1].split(" ", 1)[0]; sig0 = (bad0[0][2].split(" ")[0][:1], bad0[0][3].split(" ")[0][:1])
     def fails(s):
+        """still failing in the same way: same op name, same kind of answer on both sides (marker vs value)"""
         try:
             bad, _, _ = differential(ctx, s)
-            return bool(bad)
+            return bool(bad) and bad[0][1].split(" ", 1)[0] == op0 and (bad[0][2].split(" ")[0][:1] == "!") == (sig0[0] == "!") and not bad[0][2].startswith("?") and not bad[0][3].startswith("?")
         except Exception: return False
     cur = list(seg); changed = True; budget = 200
     # cut everything after the first failing line
